@@ -175,6 +175,7 @@ type frame struct {
 	frameDone map[string]bool
 	assertAt map[ssa.Instruction][]*AssertSpec
 	curInstr int
+	curCall  *ssa.CallCommon
 	depth    int
 	top      bool
 	entry    *State
